@@ -333,6 +333,7 @@ func (fr *Frame) dynCall(fv *Val, args []*Val, st *State, pos token.Pos, resTy t
 		u.fact(eq(n2, fmt.Sprintf("(store %s %s %s)", cur2, fv.T, a.T)))
 		st.ghost[gk2] = n2
 	}
+	fr.unwindCheck(st, pos)
 	u.note("call of an opaque function value: result unconstrained; handler code is outside the verified slice")
 	// user code may do anything to memory it can reach; we assume handlers do not touch schema memory
 	u.assume["opaque function values (step/signal handlers, callbacks) do not write memory reachable from the schema"] = true
@@ -645,5 +646,51 @@ func (fr *Frame) emitOrderCheck(instr ssa.Instruction, c *ssa.CallCommon, st *St
 			name = ifaceMethodName(c)
 		}
 		u.oblige(fr, st, "order", "emit", "false", instr.Pos(), "call of "+name+" inside a loop over a map: what it emits depends on the iteration order")
+	}
+}
+
+// unwindCheck: an opaque function value (a step or signal handler, an initializer: plugin code whose panics the
+// callers recover by design) is called. If it panics, the stack unwinds through this function: every declared
+// monitor lock held at this point must have a pending deferred Unlock, or the lock stays held for ever and the next
+// caller blocks.
+func (fr *Frame) unwindCheck(st *State, pos token.Pos) {
+	u := fr.u
+	var keys []string
+	for k, v := range st.ghost {
+		if strings.HasPrefix(k, "held:") && v != "false" {
+			keys = append(keys, k)
+		}
+	}
+	sort.Strings(keys)
+	for _, hk := range keys {
+		var conds []string
+		for f := fr; f != nil; f = f.parent {
+			for i, d := range f.defers {
+				c := d.Common()
+				callee := c.StaticCallee()
+				if callee == nil || len(c.Args) == 0 {
+					continue
+				}
+				if n := callee.String(); n != "(*sync.Mutex).Unlock" && n != "(*sync.RWMutex).Unlock" {
+					continue
+				}
+				a, ok := f.vals[c.Args[0]]
+				if !ok {
+					continue
+				}
+				if m, fname := u.monitorFor(a); m != nil && fname == m.Lock && heldKey(m, "") == hk {
+					cond := "true"
+					if i < len(f.deferConds) {
+						cond = f.deferConds[i]
+					}
+					conds = append(conds, cond)
+				}
+			}
+		}
+		goal := not(u.ghostOf(st, hk))
+		if len(conds) > 0 {
+			goal = or(append([]string{goal}, conds...)...)
+		}
+		u.oblige(fr, st, "unwind", strings.TrimPrefix(hk, "held:"), goal, pos, "an opaque function is called while "+strings.TrimPrefix(hk, "held:")+" is held and no deferred Unlock is pending: if it panics (callers recover handler panics by design) the lock is never released")
 	}
 }
